@@ -225,7 +225,7 @@ pub fn profile(name: &str, rng: &mut SmallRng) -> GenParams {
             p.oversize_pct = 0;
         }
         "counter" => {
-            p.ops = vec![("get", 20), ("set", 15), ("incr", 30), ("decr", 25), ("delete", 4), ("append", 4), ("prepend", 2)];
+            p.ops = vec![("get", 20), ("set", 15), ("incr", 30), ("decr", 25), ("delete", 4), ("append", 4), ("prepend", 5)];
             p.numeric_pct = 75;
             p.nkeys = rng.gen_range(1..=3);
             p.oversize_pct = 0;
@@ -303,7 +303,20 @@ fn gen_key(rng: &mut SmallRng, i: usize) -> Vec<u8> {
 fn gen_numeric(rng: &mut SmallRng) -> Vec<u8> {
     let specials: [u64; 12] = [0, 1, 9, 10, 99, (1u64 << 32) - 1, 1u64 << 32, (1u64 << 63) - 1, 1u64 << 63,
         u64::MAX - 1, u64::MAX, 12345678901234567890];
-    match rng.gen_range(0..20) {
+    match rng.gen_range(0..24) {
+        // decimal text longer than 20 bytes that is still a u64: leading zeros (and a sign)
+        20 | 21 => {
+            let v = specials[rng.gen_range(0..specials.len())].to_string();
+            let width = rng.gen_range(21..=26);
+            let mut s = String::new();
+            while s.len() + v.len() < width {
+                s.push('0');
+            }
+            s.push_str(&v);
+            s.into_bytes()
+        }
+        22 => format!("+{}", specials[rng.gen_range(0..specials.len())]).into_bytes(),
+        23 => format!("{:020}", rng.gen_range(0..1000u32)).into_bytes(),
         0..=9 => specials[rng.gen_range(0..specials.len())].to_string().into_bytes(),
         10..=13 => rng.gen::<u64>().to_string().into_bytes(),
         14 => format!("00{}", rng.gen_range(0..1000u32)).into_bytes(),
@@ -405,10 +418,15 @@ pub fn generate(name: &str, profile_name: &str, rng: &mut SmallRng) -> History {
         let mut val = match op {
             "set" | "add" | "replace" => gen_val(rng, &p),
             "append" | "prepend" => {
-                let mut q = p.clone();
-                q.max_val = std::cmp::min(p.max_val, 12);
-                q.numeric_pct = 10;
-                gen_val(rng, &q)
+                if p.numeric_pct >= 50 && rng.gen_bool(0.4) {
+                    // digits glued to a counter: zeros in front keep it a number, however long the text gets
+                    if op == "prepend" { vec![b'0'; rng.gen_range(1..=22)] } else { vec![b'0' + rng.gen_range(0..10u8)] }
+                } else {
+                    let mut q = p.clone();
+                    q.max_val = std::cmp::min(p.max_val, 12);
+                    q.numeric_pct = 10;
+                    gen_val(rng, &q)
+                }
             }
             _ => Vec::new(),
         };
